@@ -85,13 +85,25 @@ func c15Program(id string, snips []snippet, sc c15Scheme, base int) *Program {
 	w.WriteString(imp(sc.Fmt, "fmt") + imp(sc.Sort, "sort") + imp(sc.Str, "strings") + imp(sc.Lib, p.ImportPath(1)) + "\t\"github.com/google/wire\"\n)\n\n")
 	fq, sq, lq, soq := qual(sc.Fmt, "fmt"), qual(sc.Str, "strings"), qual(sc.Lib, sc.LibPkgName), qual(sc.Sort, "sort")
 	w.WriteString("var _ = " + fq + "Sprint\nvar _ = " + sq + "ToUpper\nvar _ = " + lq + "Const\nvar _ = " + soq + "Strings\n\n")
-	w.WriteString("// Init is the injector.\nfunc Init() A {\n\twire.Build(NewA)\n\treturn A{}\n}\n\n")
+	// the first snippet precedes the first injector; the last one goes to a second injector file
+	nBefore, nSecond := 1, 1
+	if len(snips) < 4 {
+		nBefore, nSecond = 0, 0
+	}
 	probe.WriteString("package app\n\nimport (\n\t\"fmt\"\n\t\"strings\"\n\t\"sort\"\n\tzlib \"" + p.ImportPath(1) + "\"\n\ttr \"" + ModulePath + "/tr\"\n)\n\nvar _ = fmt.Sprint\nvar _ = strings.ToUpper\nvar _ = sort.Strings\nvar _ = zlib.Const\n\nfunc Scenarios() {\n")
 	var kinds []string
+	var w2 strings.Builder
 	for k, sn := range snips {
 		n := fmt.Sprint(base + k)
 		r := strings.NewReplacer("$N", n, "{FMT}", fq, "{STR}", sq, "{LIB}", lq, "{SORT}", soq)
-		w.WriteString(r.Replace(sn.Decl) + "\n\n")
+		if k == nBefore {
+			w.WriteString("// Init is the injector.\nfunc Init() A {\n\twire.Build(NewA)\n\treturn A{}\n}\n\n")
+		}
+		if nSecond > 0 && k == len(snips)-1 {
+			w2.WriteString(r.Replace(sn.Decl) + "\n\n")
+		} else {
+			w.WriteString(r.Replace(sn.Decl) + "\n\n")
+		}
 		if sn.Probe != "" {
 			pr := strings.NewReplacer("$N", n, "{FMT}", "fmt.", "{STR}", "strings.", "{LIB}", "zlib.", "{SORT}", "sort.")
 			fmt.Fprintf(&probe, "\ttr.Note(\"copied_fn\", %q, %s)\n", id+"/"+sn.Name, pr.Replace(sn.Probe))
@@ -99,6 +111,15 @@ func c15Program(id string, snips []snippet, sc c15Scheme, base int) *Program {
 		kinds = append(kinds, sn.Name)
 	}
 	probe.WriteString("}\n")
+	if nBefore >= len(snips) || len(snips) == 0 {
+		w.WriteString("// Init is the injector.\nfunc Init() A {\n\twire.Build(NewA)\n\treturn A{}\n}\n\n")
+	}
+	if w2.Len() > 0 {
+		hdr := "//go:build wireinject\n// +build wireinject\n\npackage app\n\nimport (\n" + imp(sc.Fmt, "fmt") + imp(sc.Sort, "sort") + imp(sc.Str, "strings") + imp(sc.Lib, p.ImportPath(1)) + "\t\"github.com/google/wire\"\n)\n\n"
+		hdr += "var _ = " + fq + "Sprint\nvar _ = " + sq + "ToLower\nvar _ = " + lq + "Const\nvar _ = " + soq + "Ints\n\n"
+		p.Extra["0/wire_b.go"] = hdr + w2.String() + "// InitB is the injector of the second file.\nfunc InitB() *A {\n\tpanic(wire.Build(NewPA))\n}\n"
+		p.Extra["0/decl.go"] += "\nfunc NewPA() *A { return &A{X: 2} }\n"
+	}
 	p.Extra["0/wire.go"] = w.String()
 	p.Extra["0/zz_probe.go"] = probe.String()
 	p.Feat["snippets"] = strings.Join(kinds, ",")
@@ -541,7 +562,7 @@ func CheckC15(e *Env) int {
 				return sp.Fset.File(files[i].Pos()).Name() < sp.Fset.File(files[j].Pos()).Name()
 			})
 			for _, f := range files {
-				if filepath.Base(sp.Fset.File(f.Pos()).Name()) != "wire.go" {
+				if bn := filepath.Base(sp.Fset.File(f.Pos()).Name()); bn != "wire.go" && bn != "wire_b.go" {
 					continue
 				}
 				for _, d := range f.Decls {
@@ -563,7 +584,7 @@ func CheckC15(e *Env) int {
 					if gd, ok := d.(*ast.GenDecl); ok && gd.Tok == token.IMPORT {
 						continue
 					}
-					if fd, ok := d.(*ast.FuncDecl); ok && fd.Recv == nil && fd.Name.Name == "Init" {
+					if fd, ok := d.(*ast.FuncDecl); ok && fd.Recv == nil && (fd.Name.Name == "Init" || fd.Name.Name == "InitB") {
 						continue
 					}
 					genDecls = append(genDecls, d)
